@@ -78,6 +78,12 @@ long explore(Options opt, const std::function<void()>& body,
 
 void setStuckHandler(std::function<void(const RunInfo&)> h);
 
+// Ghost counters kept inside the (uninstrumented, opaque) runtime.  Harness bookkeeping that several
+// managed threads update must not live in plain variables of the instrumented harness: the compiler
+// may legally keep a plain variable in a register across a relaxed atomic on a non-escaping object,
+// and the scheduler switches threads exactly there, so updates would be lost.
+void ghostAdd(int slot, long delta);
+long ghostGet(int slot);
 void note(const char* fmt, ...);                               // harness marker into the trace
 void nameRegion(const void* addr, size_t bytes, const char* name);
 // a region of plain (non-atomic) elements of `elemSize` bytes: every plain read/write of an element is a
